@@ -154,3 +154,67 @@ def _(self: Obj(SegBDT, app_start=U32, app_length=U32, _plugin=Range(0, 2), padd
 def _(start: U32, length: U32, plugin: Range(0, 2)):
     let(back=SegBDT.parse(le32(start) + le32(length) + le32(plugin) + bytes(20)))
     ensures(back.app_start == start and back.app_length == length and back.plugin == plugin, label="start-length-plugin-come-back")
+
+
+# ----------------------------------------------------------------------------------------------------------------------
+# SRK table items for ECC keys (spsdk/image/secret.py): fixed-width coordinates, and parse inverts export for every curve
+# ----------------------------------------------------------------------------------------------------------------------
+from spsdk.image.secret import SrkItemEcc  # noqa: E402
+
+inline("spsdk.image.secret:SrkItemEcc.__init__", "spsdk.image.secret:SrkItemEcc.flag", "spsdk.crypto.keys:get_ecc_curve", "spsdk.image.secret:SrkItemEcc.parse")
+_CURVE_ID = {256: 0x4B, 384: 0x4D, 521: 0x4E}
+
+
+def SRKECC(bits):
+    cs = (bits + 7) // 8
+    return Obj(SrkItemEcc, _header=Obj(Header, _tag=Const(0xE1), param=Const(0x27), length=Const(4 + 8 + 2 * cs)), x_coordinate=Range(0, (1 << bits) - 1),
+               y_coordinate=Range(0, (1 << bits) - 1), key_size=Const(bits), coordinate_size=Const(cs), _flag=OneOf(0, 0x80))
+
+
+def srk_ecc_bytes(bits, flag, x, y):
+    cs = (bits + 7) // 8
+    return (bytes([0xE1]) + (12 + 2 * cs).to_bytes(2, "big") + bytes([0x27, 0, 0, 0, flag, _CURVE_ID[bits], 0]) + bits.to_bytes(2, "big")
+            + x.to_bytes(cs, "big") + y.to_bytes(cs, "big"))
+
+
+@contract("spsdk.image.secret:SrkItemEcc.export")
+def _(self: Union[SRKECC(256), SRKECC(384), SRKECC(521)]) -> bytes:
+    returns(srk_ecc_bytes(self.key_size, self._flag, self.x_coordinate, self.y_coordinate), label="header-flag-curve-keysize-then-fixed-width-x-y")
+    pure()
+    sample_with(lambda rnd: {"self": (lambda b: SrkItemEcc(b, rnd.getrandbits(b - rnd.choice([0, 9, 17])), rnd.getrandbits(b), rnd.choice([0, 0x80])))(rnd.choice([256, 384, 521]))})
+
+
+@lemma("srk-ecc-item-parse-inverts-export-for-every-curve")
+def _(bits: OneOf(256, 384, 521), flag: OneOf(0, 0x80), x: Nat, y: Nat):
+    requires(x < 2 ** bits and y < 2 ** bits)
+    let(back=SrkItemEcc.parse(srk_ecc_bytes(bits, flag, x, y)))
+    ensures(back.x_coordinate == x and back.y_coordinate == y and back.key_size == bits and back.flag == flag, label="coordinates-keysize-flag-come-back")
+
+
+from spsdk.image.secret import SrkItemRSA  # noqa: E402
+
+inline("spsdk.image.secret:SrkItemRSA.__init__", "spsdk.image.secret:SrkItemRSA.flag", "spsdk.image.secret:SrkItemRSA.parse")
+
+
+def SRKRSA(nbytes, ebytes):
+    return Obj(SrkItemRSA, _header=Obj(Header, _tag=Const(0xE1), param=Const(0x21), length=Const(4 + 8 + nbytes + ebytes)), modulus=Bytes(nbytes), exponent=Bytes(ebytes),
+               _flag=OneOf(0, 0x80))
+
+
+def srk_rsa_bytes(flag, modulus, exponent):
+    return (bytes([0xE1]) + (12 + len(modulus) + len(exponent)).to_bytes(2, "big") + bytes([0x21, 0, 0, 0, flag]) + len(modulus).to_bytes(2, "big")
+            + len(exponent).to_bytes(2, "big") + modulus + exponent)
+
+
+@contract("spsdk.image.secret:SrkItemRSA.export")
+def _(self: Union[SRKRSA(256, 3), SRKRSA(384, 3), SRKRSA(512, 3), SRKRSA(256, 4), SRKRSA(128, 1)]) -> bytes:
+    returns(srk_rsa_bytes(self._flag, self.modulus, self.exponent), label="header-flag-lengths-then-modulus-exponent")
+    pure()
+    sample_with(lambda rnd: {"self": SrkItemRSA(bytes(rnd.getrandbits(8) for _ in range(rnd.choice([128, 256, 384, 512]))), rnd.choice([b"\x01\x00\x01", b"\x03"]),
+                                                rnd.choice([0, 0x80]))})
+
+
+@lemma("srk-rsa-item-parse-inverts-export")
+def _(flag: OneOf(0, 0x80), modulus: Union[Bytes(256), Bytes(384), Bytes(512)], exponent: Union[Bytes(3), Bytes(4)]):
+    let(back=SrkItemRSA.parse(srk_rsa_bytes(flag, modulus, exponent)))
+    ensures(back.modulus == modulus and back.exponent == exponent and back.flag == flag, label="modulus-exponent-flag-come-back")
